@@ -29,6 +29,18 @@ for m in $mods; do (cd $W/$m && go test -vet=off -count=1 ./... 2>&1 | grep -E "
 fails=$(grep -c '^--- FAIL' /tmp/seedverify-$ID-suite.log)
 known='TestWorkManagerProgressTimeoutFailuresDontReset|TestHandleHeaders|TestNeutrinoSyncWithHeadersImport|TestNeutrinoImportThenP2PSync|TestNeutrinoSyncWithoutHeadersImport'
 newfails=$(grep '^--- FAIL' /tmp/seedverify-$ID-suite.log | grep -Ev "$known" | wc -l)
+# Timing-sensitive tests of untouched packages fail now and then on a loaded machine: a new
+# failure only counts if the test fails again when run on its own (twice).
+if [ $newfails -gt 0 ]; then
+  still=0
+  for t in $(grep '^--- FAIL' /tmp/seedverify-$ID-suite.log | grep -Ev "$known" | awk '{print $3}' | sort -u); do
+    for m in $mods; do
+      if ! (cd $W/$m && go test -vet=off -count=2 -run "^$t\$" ./... 2>&1 | grep -q '^--- FAIL'); then :; else still=$((still+1)); fi
+    done
+  done
+  echo "new failures re-run on their own: $newfails -> $still"
+  newfails=$still
+fi
 echo "demo_with_rc=$rcw demo_without_rc=$rco suite_fail_lines=$fails new_failures=$newfails"
 if [ $rcw -ne 0 ] && [ $rco -eq 0 ] && [ $newfails -eq 0 ]; then
   mkdir -p /verif/seeded/$DEST && cp "$S/patch.diff" "$S/meta.json" /verif/seeded/$DEST/ && cp "$S"/demo* /verif/seeded/$DEST/ 2>/dev/null
